@@ -186,7 +186,7 @@ inline unsigned seen_term(const ctpg::term_value<unsigned>& t) {
     else hv_S.flags |= 4u;
     return t.get_value();
 }
-struct trk; inline unsigned arg(const trk& t); struct ctrk; inline unsigned arg(const ctrk& t);
+struct trk; inline unsigned arg(const trk& t); struct ctrk; inline unsigned arg(const ctrk& t); struct agg; inline unsigned arg(const agg& t);
 inline unsigned arg(unsigned v) { return v; }
 inline unsigned arg(const ctpg::term_value<unsigned>& t) { return seen_term(t); }
 // rule value: ((..((R*P + a1)*P + a2)..)*P + ak), R = 7919*(rule+1), P = 31 (mod 2^32)
@@ -234,6 +234,19 @@ inline unsigned arg(const ctrk& t) { if (t.st != 1) hv_S.flags |= 16u; return t.
 template<typename VT, typename... A> inline VT redv(unsigned rule, const A&... a) { return VT(red(rule, a...)); }
 template<typename... A>
 inline trk redt(unsigned rule, const A&... a) { return trk(red(rule, a...)); }
+// ---- aggregate nonterminal value (C02, rules WITHOUT functor with several right-side symbols): constructible from any right side;
+//      one argument: that value; several: 0xD00D folded with *31 + value, in order
+struct agg {
+    unsigned v = 0;
+    agg() = default;
+    agg(unsigned x) : v(x) {}
+    agg(const ctpg::term_value<unsigned>& t) : v(t.get_value()) {}
+    template<typename A0, typename A1, typename... A> agg(const A0& a0, const A1& a1, const A&... a) : v(0xD00Du) { v = v * 31u + val(a0); v = v * 31u + val(a1); ((v = v * 31u + val(a)), ...); }
+    static unsigned val(unsigned x) { return x; }
+    static unsigned val(const agg& x) { return x.v; }
+    static unsigned val(const ctpg::term_value<unsigned>& t) { return t.get_value(); }
+};
+inline unsigned arg(const agg& t) { return t.v; }
 // ---- contexts (C13)
 struct ctx_t { unsigned counter = 0; unsigned tag = 0; };
 struct mo_ctx { unsigned counter = 0; unsigned tag = 0; mo_ctx() = default; mo_ctx(const mo_ctx&) = delete; mo_ctx& operator=(const mo_ctx&) = delete; mo_ctx(mo_ctx&&) = default; };
@@ -244,6 +257,15 @@ template<typename C> inline void ctx_touch(C& c) {
     if (c.tag != hv_ctx_tag) hv_S.flags |= 8u;
     if constexpr (!std::is_const_v<C>) c.counter++;
 }
+template<typename T> struct is_ctx : std::false_type {};
+template<> struct is_ctx<ctx_t> : std::true_type {};
+template<> struct is_ctx<mo_ctx> : std::true_type {};
+// a functor that can be called with or without the context: being called WITHOUT it although attached with >>= is flagged
+template<unsigned R> struct ctxf {
+    template<typename C, typename... A, typename = std::enable_if_t<is_ctx<std::remove_cv_t<std::remove_reference_t<C>>>::value>>
+    unsigned operator()(C&& c, const A&... a) const { ctx_touch(c); return red(R, a...); }
+    template<typename... A> unsigned operator()(const A&... a) const { hv_S.flags |= 8u; return red(R, a...); }
+};
 // ---- custom lexer driven by harness-chosen answers (C18): the answer to a request at offset k is (idx[k], len[k])
 #ifndef LEXMAX
 #define LEXMAX 8
